@@ -238,10 +238,17 @@ def chk_solver(c):
         B = B + np.diag(d) if n > 1 or c['seed'] % 2 else B + np.diag(np.abs(d))
         kw = {'symmetric': True}
     Bop = scipy.sparse.csr_matrix(B) if c['sparse'] else B
+    if c.get('order') == 'F' and not c['sparse']:
+        Bop = np.asfortranarray(B.copy())          # column-major storage of the same matrix
+    B0 = Bop.toarray().copy() if c['sparse'] else np.array(Bop, copy=True)
     S = operators.make_solver(Bop, **kw)
     for nm, x in _args(rng, n):
         y = S.dot(x)
         _close(B @ y, x, 'make_solver(%s%s) applied to a %s is not the inverse' % (c['kind'], ', sparse' if c['sparse'] else '', nm), tol=1e-9)
+    # the factory works on a copy: the matrix it was given is the caller's (e.g. a mass matrix that is used again afterwards)
+    B1 = Bop.toarray() if c['sparse'] else np.asarray(Bop)
+    assert np.array_equal(B1, B0), 'make_solver(%s, %s storage) changed the matrix it was given (max change %g)' % (
+        c['kind'], c.get('order', 'C'), np.max(np.abs(B1 - B0)))
 
 
 def chk_kronsolver(c):
@@ -380,6 +387,8 @@ def generate(tier, rng):
         for kind in ('general', 'spd', 'symmetric'):
             for sp in (False, True):
                 yield 'solver', {'seed': rep, 'n': 2 + rep % 5, 'kind': kind, 'sparse': sp}
+                if not sp:
+                    yield 'solver', {'seed': rep, 'n': 1 + rep % 5, 'kind': kind, 'sparse': False, 'order': 'F'}
         yield 'kronsolver', {'seed': rep, 'sizes': [2 + (rep + k) % 2 for k in range(1 + rep % 3)]}
         yield 'csr', {'seed': rep, 'shape': [4 + rep % 3, 3 + rep % 4], 'bounds': [[0, 4 + rep % 3], [1, 3], [2, 2], [0, 1]][rep % 4], 'rows': [[0, 2, 1], [3], [], [1, 1, 0]][rep % 4]}
     for sp in ([(2, 3)], [(1, 4), (2, 3)], [(2, 3), (3, 2)], [(1, 2), (2, 2), (1, 3)]):
